@@ -200,6 +200,7 @@ type runHooks struct {
 	noClose      bool
 	afterMain    func(e *env)
 	onStuck      func(e *env) // called when the workload phase ended without all calls returning, before healing
+	newClientRetries int       // NewClient is retried this many times (scenarios that make connection setup fail)
 }
 
 func (e *env) stdGhost(g GhostSpec) func(*sched.Sim) {
@@ -243,6 +244,9 @@ func standardRun(t *testing.T, seed uint64, p *Plan, out *Outcome, h runHooks) *
 	rr := e.background("setup", func(ctx context.Context) {
 		for i := 0; i < nc; i++ {
 			cl, err := NewClient(e.clientOption())
+			for try := 0; err != nil && try < h.newClientRetries; try++ {
+				cl, err = NewClient(e.clientOption())
+			}
 			if err != nil {
 				setupErr = err
 				return
